@@ -1,6 +1,7 @@
 // Generic driver for a generated fcp.h (C03, C13): line protocol on stdin/stdout.
 //   E <struct> <json>   -> "OK <hex bytes>" | "NONE" | "EXC <what>"
 //   D <struct> <hex>    -> "OK <json>"      | "NONE" | "EXC <what>"
+//   e / d : the same through fcp::dynamic::DynamicSchema loaded from the reflection binary given as argv[1] (-DWITH_DYNAMIC)
 #include <cmath>
 #include <limits>
 #include <iostream>
@@ -28,9 +29,14 @@ static std::vector<std::uint8_t> unhex(const std::string& s) {
 int main(int argc, char** argv) {
     fcp::StaticSchema st;
 #ifdef WITH_DYNAMIC
-    std::ifstream f(argv[1], std::ios::binary);
-    std::vector<std::uint8_t> refl((std::istreambuf_iterator<char>(f)), std::istreambuf_iterator<char>());
-    auto dyn = fcp::dynamic::DynamicSchema::LoadBinarySchema(refl);   // adjusted by the harness to the generated API
+    fcp::dynamic::DynamicSchema dyn;
+    try {
+        dyn.LoadBinarySchemaFromFile(argv[1]);
+        std::cout << "LOADED\n";
+    } catch (const std::exception& e) {
+        std::cout << "LOADFAIL " << e.what() << "\n";
+    }
+    std::cout.flush();
 #endif
     std::string line;
     while (std::getline(std::cin, line)) {
@@ -46,6 +52,14 @@ int main(int argc, char** argv) {
             } else if (op == "D") {
                 auto r = st.DecodeJson(name, unhex(rest));
                 if (r) std::cout << "OK " << r->dump() << "\n"; else std::cout << "NONE\n";
+#ifdef WITH_DYNAMIC
+            } else if (op == "e") {
+                auto r = dyn.EncodeJson(name, nlohmann::json::parse(rest));
+                if (r) std::cout << "OK " << hex(*r) << "\n"; else std::cout << "NONE\n";
+            } else if (op == "d") {
+                auto r = dyn.DecodeJson(name, unhex(rest));
+                if (r) std::cout << "OK " << r->dump() << "\n"; else std::cout << "NONE\n";
+#endif
             } else {
                 std::cout << "EXC bad op\n";
             }
